@@ -5,9 +5,10 @@ CONSTANTS
   ByteStrings <- BytesQuick
   NumSeqs <- NumsQuick
   NewObjs <- MCNewObjs
+  InheritBound <- MCInheritBound
   MaxDepth = 2
   Starts <- StartsQuick
-  Allowed = {}
+  Allowed = {"resources.shadow.deep", "fresh.aboveMax", "maxid.setObject", "counts.indirect", "delete.bookmark"}
   Emit = TRUE
   EmitMod = 400
   EmitModV = 40
